@@ -63,7 +63,7 @@ func C13(p *load.Program, run *report.Run) {
 
 // C17 write-freedom on the shared circuit.
 func C17(p *load.Program, run *report.Run) {
-	run.Rule("shared-circuit-write-freedom", "nothing reachable from Garble, Eval, Compute writes through the receiver *Circuit (sync/atomic and sync.Pool methods excepted)")
+	run.Rule("shared-circuit-write-freedom", "nothing reachable from Garble, Eval, Compute writes through the receiver *Circuit (sync/atomic and sync.Pool methods excepted; a buffer field that busy-flag-released-only-by-owner shows to be exclusive to the holder of a flag is not shared)")
 	allow := func(f *ssa.Function) bool {
 		if f.Pkg == nil {
 			return true // synthetic wrappers of generic atomic types
@@ -71,6 +71,10 @@ func C17(p *load.Program, run *report.Run) {
 		path := f.Pkg.Pkg.Path()
 		return path == "sync/atomic" || path == "sync"
 	}
+	// a buffer of the circuit that is exclusive to the holder of a busy flag is not shared memory
+	ob := ownedBuffers(p, run, []string{"circuit"})
+	flow.ExemptField = ob.owned
+	defer func() { flow.ExemptField = nil }()
 	for _, name := range []string{"Garble", "Eval", "Compute", "garbleScratchPool"} {
 		f, err := p.Method("circuit", "Circuit", name)
 		if err != nil {
